@@ -88,6 +88,17 @@ func c13Job(t *testing.T, raw json.RawMessage) (any, error) {
 		{"basic", "Basic dXNlcjpwYXNz"},
 	}
 	control := "Bearer " + mkToken(jwt.SigningMethodRS512, nrfKey, scopeAll)
+	// tokens tried right after the genuine one: its signature under another header and other claims, its first two
+	// segments with another signature, and the plain invalid ones again
+	cp := strings.Split(strings.TrimPrefix(control, "Bearer "), ".")
+	otherTok := strings.Split(mkToken(jwt.SigningMethodRS512, otherKey, scopeAll+" extra"), ".")
+	after := []struct{ name, hdr string }{
+		{"genuine-signature-on-other-claims", "Bearer " + otherTok[0] + "." + otherTok[1] + "." + cp[2]},
+		{"genuine-claims-with-other-signature", "Bearer " + cp[0] + "." + cp[1] + "." + otherTok[2]},
+		{"absent", ""},
+		{"rs512-other-key", "Bearer " + strings.Join(otherTok, ".")},
+		{"genuine-token-without-bearer", strings.TrimPrefix(control, "Bearer ")},
+	}
 	out := c13Out{}
 	cfg := WorldCfg{Accounts: []Account{{supiA, 1, "1000", "2"}}, Services: a.Services, NoServices: len(a.Services) == 0, NrfCert: nrfCertPath}
 	o := runWorld(t, cfg, nil, func(w *World) {
@@ -156,6 +167,29 @@ func c13Job(t *testing.T, raw json.RawMessage) (any, error) {
 				out.Control++
 				if r.Code == 401 {
 					out.Finds = append(out.Finds, Finding{"control-token-rejected", fmt.Sprintf("services %v: %s %s with a valid NRF-signed RS512 token answered 401 %s (probe does not reach the handler)", a.Services, rt.Method, rt.Path, oneLine(r.Body, 100))})
+				}
+				// right after a genuine request: nothing remembered from it may authorise another token
+				for _, tk := range after {
+					pre := w.Snapshot(false)
+					hdr := map[string]string{}
+					if tk.hdr != "" {
+						hdr["Authorization"] = tk.hdr
+					}
+					r := w.Do(rt.Method, path, string(bodyJSON), hdr)
+					vs.Quiesce()
+					post := w.Snapshot(false)
+					out.Probes++
+					what := fmt.Sprintf("services %v: %s %s with token %q right after a request with a genuine token", a.Services, rt.Method, rt.Path, tk.name)
+					if r.Code != 401 {
+						out.Finds = append(out.Finds, Finding{"not-401/after-genuine/" + tk.name, what + fmt.Sprintf(" answered %d %s", r.Code, oneLine(r.Body, 80))})
+					}
+					pv, qv := effectView(&pre), effectView(&post)
+					pv["notes"], qv["notes"] = pre.Notes, post.Notes
+					pv["dbGets"], qv["dbGets"] = pre.DBGets, post.DBGets
+					pv["dials"], qv["dials"] = pre.Dials, post.Dials
+					if !reflect.DeepEqual(pv, qv) {
+						out.Finds = append(out.Finds, Finding{"processed-although-rejected/after-genuine/" + tk.name, what + fmt.Sprintf(" answered %d but was processed: %s", r.Code, diffJSON(pv, qv))})
+					}
 				}
 			}
 		})
@@ -231,7 +265,7 @@ func init() {
 		rep.Cov["traces_validated_against_impl"] = probes + control + sexecs
 		rep.Cov["evaluations"] = probes
 		rep.Cov["distinct_nontrivial"] = probes / 2
-		rep.Cov["rule"] = "every ordered list of distinct service names (16 incl. the empty list) x every (method, path) reported by gin's Engine.Routes() x 11 token kinds x 2 attempts, against a world with a live session, a reservation and a notification URI; plus one control probe per route with a valid NRF-signed RS512 token; plus (concurrent_requests) every placement of up to k preemptions at statement-level scheduling points inside the authorisation code while a request with a valid token and one without are in flight on the recharging route"
+		rep.Cov["rule"] = "every ordered list of distinct service names (16 incl. the empty list) x every (method, path) reported by gin's Engine.Routes() x 11 token kinds x 2 attempts (and 5 more right after a request with a genuine token: its signature under other claims, its claims under another signature, ...), against a world with a live session, a reservation and a notification URI; plus one control probe per route with a valid NRF-signed RS512 token; plus (concurrent_requests) every placement of up to k preemptions at statement-level scheduling points inside the authorisation code while a request with a valid token and one without are in flight on the recharging route"
 		rep.Cov["service_lists"] = len(lists)
 		rep.Cov["routes_probed"] = routes
 		rep.Cov["control_probes"] = control
